@@ -32,5 +32,7 @@ def uniq_features(rng, nmax=2):
 def gen_one(rng, writer=None):
     feats = uniq_features(rng)
     events = evgen.contract_stream(rng, feats, fail_bias=rng.choice([0.0, 0.4, 0.8]))
+    if rng.random() < 0.3:          # the writer sits under FailOnSkipped
+        events = evgen.fail_on_skipped(rng, events)
     return dict(features=feats, events=events, writer=writer or rng.choice(["libtest", "json", "junit", "basic"]),
                 verbose=rng.choice([0, 0, 1]), show_output=False)
